@@ -286,12 +286,15 @@ Fixpoint release_all (s : st) (bs : list block) (rep : N) : st * N :=
   end.
 
 Record scenario := { sc_cfg : cfg; sc_fail : list N; sc_ops : list op }.
-Record obs := { ob_guard : bool; ob_ns : N; ob_ops : list oobs; ob_end_total : N; ob_end_rep : N }.
+(* [ob_end_live]: id and content digest of every block still live after the last operation (newest first), read before the
+   harness releases them *)
+Record obs := { ob_guard : bool; ob_ns : N; ob_ops : list oobs; ob_end_live : list (N * list N); ob_end_total : N; ob_end_rep : N }.
 
 Definition run_v (v : variant) (sc : scenario) : obs :=
   let '(s, os) := steps v (sc_cfg sc) (sc_fail sc) st0 0 (sc_ops sc) in
   let '(s', rep) := release_all s (s_blocks s) 0 in
-  {| ob_guard := guard_on (sc_cfg sc); ob_ns := node_size (sc_cfg sc); ob_ops := os; ob_end_total := total s'; ob_end_rep := rep |}.
+  {| ob_guard := guard_on (sc_cfg sc); ob_ns := node_size (sc_cfg sc); ob_ops := os;
+     ob_end_live := map (fun b => (b_id b, digest (b_data b))) (s_blocks s); ob_end_total := total s'; ob_end_rep := rep |}.
 Definition run := run_v fixed.
 
 (* ---- validity of a scenario: sizes are size_t values, bytes are bytes ---- *)
@@ -320,6 +323,10 @@ Definition l_update (i : N) (d : list N) (l : live) : live := map (fun e => if f
 Definition count (l : live) : N := N.of_nat (length l).
 
 Definition any_failed (cs : list call) : bool := existsb (fun x => negb (snd x)) cs.
+(* a failed request keeps nothing: every region it obtained from the underlying allocator has been given back *)
+Definition got (cs : list call) : N := N.of_nat (length (filter (fun x : call => negb (fst (fst x) =? 2) && snd x) cs)).
+Definition freed (cs : list call) : N := N.of_nat (length (filter (fun x : call => fst (fst x) =? 2) cs)).
+Definition balanced (cs : list call) : bool := got cs =? freed cs.
 (* sizes that cannot be served once the bookkeeping is added *)
 Definition too_big (c : cfg) (n : N) : bool := W <=? n + G c + c05_ptr_size + node_size c.
 (* user bytes, guard bytes and record are inside the region the underlying allocator returned, in this order, disjoint *)
@@ -343,7 +350,7 @@ Definition spec_alloc (c : cfg) (throwing : bool) (n : N) (content : unit -> lis
   if o_kind o =? K_PTR then
     negb (any_failed (o_calls o)) && (n <? W) && layout_ok c n o && (o_amod o =? 0) && (o_total o =? after_ok) && list_eqb (o_dig o) (digest (content tt))
   else if o_kind o =? (if throwing then K_BAD else K_NULL) then
-    (any_failed (o_calls o) || too_big c n) && (o_total o =? before) && list_eqb (o_dig o) fail_dig
+    (any_failed (o_calls o) || too_big c n) && balanced (o_calls o) && (o_total o =? before) && list_eqb (o_dig o) fail_dig
   else false.
 
 Definition spec_skip (l : live) (o : oobs) : bool := (o_kind o =? K_SKIP) && (o_total o =? count l) && (o_rep o =? 0).
@@ -386,13 +393,20 @@ Definition spec_step (c : cfg) (l : live) (idx : N) (o : op) (ob : oobs) : optio
       end
   end.
 
-Fixpoint spec_steps (c : cfg) (l : live) (idx : N) (ops : list op) (obs : list oobs) : bool :=
-  match ops, obs with
+(* every block the history leaves live is still there with exactly its content *)
+Fixpoint end_eqb (l : live) (e : list (N * list N)) : bool :=
+  match l, e with
   | [], [] => true
-  | o :: r, ob :: obr => match spec_step c l idx o ob with Some l' => spec_steps c l' (idx + 1) r obr | None => false end
+  | x :: l', y :: e' => (fst (fst x) =? fst y) && list_eqb (digest (snd x)) (snd y) && end_eqb l' e'
+  | _, _ => false
+  end.
+Fixpoint spec_steps (c : cfg) (l : live) (idx : N) (ops : list op) (obs : list oobs) (e : list (N * list N)) : bool :=
+  match ops, obs with
+  | [], [] => end_eqb l e
+  | o :: r, ob :: obr => match spec_step c l idx o ob with Some l' => spec_steps c l' (idx + 1) r obr e | None => false end
   | _, _ => false
   end.
 
 Definition spec (sc : scenario) (o : obs) : bool :=
   Bool.eqb (ob_guard o) (guard_on (sc_cfg sc)) && (ob_ns o =? node_size (sc_cfg sc)) &&
-  spec_steps (sc_cfg sc) [] 0 (sc_ops sc) (ob_ops o) && (ob_end_total o =? 0) && (ob_end_rep o =? 0).
+  spec_steps (sc_cfg sc) [] 0 (sc_ops sc) (ob_ops o) (ob_end_live o) && (ob_end_total o =? 0) && (ob_end_rep o =? 0).
